@@ -65,6 +65,7 @@ func (t *Tape) push(v uint64) {
 }
 
 // Draw returns a value in [0,n). n==0 returns 0 without consuming.
+//
 //go:norace
 func (t *Tape) Draw(n int) int {
 	if n <= 1 {
@@ -91,6 +92,7 @@ func (t *Tape) Draw(n int) int {
 }
 
 // Bool is true with probability num/den. 0 on the tape means false.
+//
 //go:norace
 func (t *Tape) Bool(num, den int) bool {
 	if num <= 0 {
@@ -104,6 +106,7 @@ func (t *Tape) Bool(num, den int) bool {
 }
 
 // Range returns a value in [lo,hi].
+//
 //go:norace
 func (t *Tape) Range(lo, hi int) int {
 	if hi <= lo {
@@ -113,6 +116,7 @@ func (t *Tape) Range(lo, hi int) int {
 }
 
 // Pick draws an index weighted by w; index 0 is the simplest choice.
+//
 //go:norace
 func (t *Tape) Pick(w ...int) int {
 	sum := 0
@@ -130,6 +134,7 @@ func (t *Tape) Pick(w ...int) int {
 }
 
 // Used returns the prefix of the tape consumed so far.
+//
 //go:norace
 func (t *Tape) Used() []uint64 {
 	if t.pos > len(t.Vals) {
@@ -139,11 +144,13 @@ func (t *Tape) Used() []uint64 {
 }
 
 // Pos is the number of draws so far.
+//
 //go:norace
 func (t *Tape) Pos() int { return t.pos }
 
 // Fork derives an independent search-mode generator for bulk data that should
 // not be shrunk value by value (e.g. corruption bytes); it consumes one draw.
+//
 //go:norace
 func (t *Tape) Fork() *Tape {
 	s := uint64(t.Draw(1 << 30))
@@ -171,10 +178,12 @@ func (t *Tape) Force(v, n int) int {
 }
 
 // IsReplay reports whether the tape replays recorded values.
+//
 //go:norace
 func (t *Tape) IsReplay() bool { return t.replay }
 
 // Rand returns a raw 64-bit value from a forked bulk generator (never from a
 // replay tape: call only on tapes returned by Fork).
+//
 //go:norace
 func (t *Tape) Rand() uint64 { return t.next64() }
